@@ -61,22 +61,82 @@ def _work(args):
     if bak_bytes is not None:
         with open(path + ".bak", "wb") as fh:
             fh.write(bak_bytes)
-    gw = mysensors.BaseSyncGateway(RecTransport(), persistence=True, persistence_file=path, protocol_version="2.2")
     raised = 0
-    try:
-        if entry == 0:
-            gw.tasks.persistence.safe_load_sensors()
-        else:
-            FakeTimer.armed = []
-            gw.start_persistence()
-    except Exception:  # pylint: disable=broad-except
-        raised = 1
+    if entry == 2:
+        gw, raised = _async_start(mysensors, path)
+    else:
+        gw = mysensors.BaseSyncGateway(RecTransport(), persistence=True, persistence_file=path, protocol_version="2.2")
+        try:
+            if entry == 0:
+                gw.tasks.persistence.safe_load_sensors()
+            else:
+                FakeTimer.armed = []
+                gw.start_persistence()
+        except Exception:  # pylint: disable=broad-except
+            raised = 1
     loaded = trees.get(_tree(gw.sensors), -3)
     ma, ba = int(os.path.exists(path)), int(os.path.exists(path + ".bak"))
     for p in (path, path + ".bak", os.path.join(d, "state.tmp." + ext)):
         if os.path.exists(p):
             os.remove(p)
     return [mclass, bclass, raised, loaded, ma, ba]
+
+
+def _async_start(mysensors, path):
+    """start_persistence() of the asyncio gateway on an event loop whose executor jobs take a few loop iterations and, when
+    several are pending at the same time, finish latest-first (threads race; in the unchanged code start-up never has two)."""
+    import asyncio
+    import mysensors.task
+    from .pdrv import AsyncioProxy
+
+    class Loop(asyncio.SelectorEventLoop):
+        pend = None
+
+        def run_in_executor(self, executor, func, *args):
+            fut = self.create_future()
+            self.pend = (self.pend or []) + [(fut, func, args)]
+            self._later(6)
+            return fut
+
+        def _later(self, k):
+            self.call_soon(self._later, k - 1) if k else self._drain()
+
+        def _drain(self):
+            while self.pend:
+                fut, func, args = self.pend.pop()
+                if fut.cancelled():
+                    continue
+                try:
+                    fut.set_result(func(*args))
+                except Exception as exc:  # pylint: disable=broad-except
+                    fut.set_exception(exc)
+    proxy = AsyncioProxy()
+    keep = mysensors.task.asyncio
+    mysensors.task.asyncio = proxy
+    loop = Loop()
+    raised = 0
+    gw = mysensors.BaseAsyncGateway(RecTransport(), persistence=True, persistence_file=path, protocol_version="2.2")
+
+    async def go():
+        await gw.start_persistence()
+        for _ in range(40):
+            await asyncio.sleep(0)          # the first scheduled save runs to its sleep
+    try:
+        loop.run_until_complete(go())
+    except Exception:  # pylint: disable=broad-except
+        raised = 1
+    finally:
+        try:
+            pending = [t for t in asyncio.all_tasks(loop) if not t.done()]
+            for t in pending:
+                t.cancel()
+            if pending:
+                loop.run_until_complete(asyncio.gather(*pending, return_exceptions=True))
+        except Exception:  # pylint: disable=broad-except
+            pass
+        loop.close()
+        mysensors.task.asyncio = keep
+    return gw, raised
 
 
 def run(tier):
@@ -109,7 +169,7 @@ def run(tier):
                 # every damage of the main file with the seven backup classes
                 baks = baks_all if mi in (0, 2) else baks_small
                 for (bb, bc) in baks:
-                    for entry in (0, 1):
+                    for entry in ((0, 1, 2) if (mi < 4 or mi % 5 == 0) else (0, 1)):
                         jobs.append((None, ext, mb, bb, mc, bc, entry, trees))
                         meta.append((ext, si, len(mb) if mb is not None else -1, len(bb) if bb is not None else -1, entry))
     n = common.ncpu()
@@ -137,7 +197,7 @@ def run(tier):
     for i in _parse_bad(r.out, "BADR"):
         rec, m = R[i - 1], meta[i - 1]
         sig = {"kind": "load-mismatch", "ext": m[0], "main_class": rec[0], "bak_class": rec[1], "raised": rec[2],
-               "loaded": rec[3], "entry": ["safe_load_sensors", "start_persistence"][m[4]]}
+               "loaded": rec[3], "entry": ["safe_load_sensors", "start_persistence", "async start_persistence"][m[4]]}
         rep.violation(sig, {"ext": m[0], "state": m[1], "main_truncated_to": m[2], "bak_truncated_to": m[3], "record": rec})
     shutil.rmtree(wd, ignore_errors=True)
     rep.cov["traces_validated_against_impl"] = len(R)
@@ -147,7 +207,7 @@ def run(tier):
     rep.cov["exhaustive"] = True
     rep.cov["rule"] = ("both formats x states x main in {absent, intact, empty, zero-filled, truncated at every offset 1..len-1} x backup in "
                        "{absent, intact, empty, zero-filled, 3 truncations} (and every truncation of the backup under a missing / empty "
-                       "main) x {safe_load_sensors, start_persistence}. Every load is non-trivial; distinct by (format, main length, "
+                       "main) x {safe_load_sensors, start_persistence, asyncio start_persistence (subset)}. Every load is non-trivial; distinct by (format, main length, "
                        "backup length, classes).")
     rep.sample({"record": "[mainClass, bakClass, raised, loadedVersion, mainExistsAfter, bakExistsAfter]", "example": R[len(R) // 2]})
     rep.assumptions += ["real files in a scratch directory (no fault injection needed for C13)"]
